@@ -263,7 +263,8 @@ class Continuous(AgentSchedulingComponent):
                 for gpu_idx,gpu_occ in enumerate(node['gpus'][loop_gpu_idx:],
                                                               loop_gpu_idx):
 
-                    if gpus_per_slot <= rpc.BUSY - gpu_occ \
+                    if gpu_occ != rpc.DOWN and \
+                       gpus_per_slot <= rpc.BUSY - gpu_occ \
                                         - gpu_used.get(gpu_idx, 0.0):
                         slot['gpus'].append(RO(index=gpu_idx,
                                                occupation=gpus_per_slot))
